@@ -434,7 +434,7 @@ func c19dump(ll gtab.LookupList) string {
 
 func runC19(c *mon.Ctx) {
 	// --- A: Parse(Explain(L)) == L --------------------------------------------
-	c.Stratum("roundtrip", c.N(2400, 48000), func(k *mon.Case) {
+	c.Stratum("roundtrip", c.N(2400, 100000), func(k *mon.Case) {
 		r := k.Rng
 		i := k.Index
 		tp := c19types[i%len(c19types)]
@@ -524,7 +524,7 @@ func runC19(c *mon.Ctx) {
 	})
 
 	// cmaps with non-printable characters (no-break space etc.), as real fonts have them
-	c.Stratum("roundtrip-nonprintable", c.N(300, 6000), func(k *mon.Case) {
+	c.Stratum("roundtrip-nonprintable", c.N(300, 10000), func(k *mon.Case) {
 		r := k.Rng
 		tp := c19types[k.Index%len(c19types)]
 		n := 4 + r.IntN(8)
